@@ -269,4 +269,13 @@ example : Lit.strict ⟨['-'], ['1'], some ['5'], some ('e', ['-'], ['7'])⟩ :=
     exp := ⟨Or.inl rfl, by simp [isSignStr], by decide, by simp⟩,
     noPlus := by simp, int := Or.inr ⟨'1', [], rfl, by decide⟩ }
 
+/-- The boolean RFC 8259 recogniser `isJsonNumber` (the model of `json::validate::is_valid_number`)
+accepts exactly the texts of strict literals of the generative grammar `Lit` over which the
+theorems above quantify (soundness and completeness). -/
+theorem json_number_grammar_iff (s : Str) : isJsonNumber s = true ↔ ∃ l : Lit, l.strict ∧ l.text = s :=
+  ⟨isJsonNumber_sound s, fun ⟨l, hs, ht⟩ => ht ▸ isJsonNumber_text l hs⟩
+
+example : isJsonNumber "-0.50E+7".toList = true := by decide
+example : isJsonNumber "007".toList = false := by decide
+
 end SV.Props.C10
